@@ -56,6 +56,28 @@ func (x *exec) blockFrom(st *pstate, b *ssa.BasicBlock, pred *ssa.BasicBlock, st
 				x.block(st, fb, b)
 				return
 			}
+			// a condition the path has already decided (`a && b || !a && c` tests a twice): only the
+			// consistent branch is a path
+			nc := smt.Not(c)
+			known := 0
+			for _, f := range st.pc {
+				if f == c {
+					known = 1
+					break
+				}
+				if f == nc {
+					known = -1
+					break
+				}
+			}
+			if known > 0 {
+				x.block(st, tb, b)
+				return
+			}
+			if known < 0 {
+				x.block(st, fb, b)
+				return
+			}
 			st2 := st.fork()
 			st.assume(c, fmt.Sprintf("branch taken at %s", x.p.Fset.Position(in.Cond.Pos())))
 			st.trace = append(st.trace, fmt.Sprintf("b%d:T", b.Index))
@@ -142,6 +164,8 @@ type FuncVal struct {
 	Fn       *ssa.Function
 	Builtin  string
 	Bindings []Val
+	// the value as data (closures stored in variables): an opaque non-nil token
+	Term *smt.Term
 }
 
 func (x *exec) term(st *pstate, v ssa.Value) *smt.Term {
@@ -155,6 +179,9 @@ func (x *exec) toTerm(v Val) *smt.Term {
 	case *Loc:
 		return locTerm(r)
 	case *FuncVal:
+		if r.Term != nil {
+			return r.Term
+		}
 		unsupp("function value used as data")
 	case *ownedRef:
 		unsupp("pointer into an owned structure used as a plain value")
@@ -342,6 +369,8 @@ func (x *exec) instr(st *pstate, in ssa.Instruction) bool {
 		for _, b := range in.Bindings {
 			fv.Bindings = append(fv.Bindings, x.val(st, b))
 		}
+		fv.Term = x.env.Fresh("closure", smt.Int)
+		st.assume(smt.Neq(fv.Term, smt.IntLit(0)), "a closure is not nil")
 		x.set(st, in, fv)
 	case *ssa.MakeMap:
 		x.set(st, in, x.makeMap(st, in))
